@@ -355,7 +355,7 @@ def run(prog, ctx):
                           "eval and eval_vectorized compare the coordinates with self.%s on different sides of the boundary (%s vs %s): "
                           "a point exactly on it is evaluated differently by the scalar and the vectorised path"
                           % (bad[0] if bad else "?", se.get(bad[0]) if bad else "", sv.get(bad[0]) if bad else ""))
-    ctx.floor("C12.D6", pairs, 8, "classes overriding both eval and eval_vectorized")
+    ctx.floor("C12.D6", pairs, 4, "classes overriding both eval and eval_vectorized")
 
     # ---------------------------------------------------------------- D8
     check_output_length(prog, ctx, base)
